@@ -436,10 +436,23 @@ def fam_history(case):
     ev = transitions = traces = 0
     obs = []
 
+    R_DERIVED = ("effective_resistance",
+                 "effective_resistance_closeness_centrality",
+                 "vertex_current_flow_betweenness",
+                 "edge_current_flow_betweenness")
+
     def check_stateless(net, cur, after):
+        """Every memo-free query against the fresh twin.  One root cause,
+        one key: a stale admittance matrix hides everything else, a stale
+        pseudo-inverse hides what is computed from it."""
         nonlocal ev
         got = _stateless(net, n)
-        for name, val in got.items():
+        skip = ()
+        for name in ["get_admittance", "get_R"] + [
+                k_ for k_ in got if k_ not in ("get_admittance", "get_R")]:
+            if name in skip:
+                continue
+            val = got[name]
             ev += 1
             if val.shape != twins[cur][name].shape or not _close(
                     val, twins[cur][name]):
@@ -447,6 +460,11 @@ def fam_history(case):
                               "differs from a freshly constructed network of "
                               "the current resistances", val,
                               twins[cur][name]))
+                if name == "get_admittance":
+                    return got
+                if name == "get_R":
+                    skip = R_DERIVED
+        return got
 
     for pre in itertools.product(BLOCKS, repeat=k):
         for last in MAXIMAL:
@@ -479,7 +497,11 @@ def fam_history(case):
                     else:
                         model_memo = memo
                     ev += 1
-                    exp = twins[cur][op]
+                    # held to the pair values the library reports *now*
+                    Lnow = np.array(_er_matrix(net, n), dtype=float)
+                    lown = [Lnow[i, j] for i in range(n) for j in range(i)]
+                    exp = (2 * sum(lown) / (n * (n - 1)) if op == "A"
+                           else max(lown))
                     if not _close(got, exp):
                         name = ("average_effective_resistance" if op == "A"
                                 else "diameter_effective_resistance")
@@ -553,9 +575,9 @@ def run(ctx):
     C.selfcheck()
     ctx.rule = (
         "circuit: connected isomorphism classes on 2..5 nodes x all "
-        "relabellings (n<=4; identity for n=5) x all resistance assignments "
-        "over {1/2,1,2} (<=6 links; unit + one link perturbed beyond; quick "
-        "tier: n=5 only up to 5 links plus unit+perturbed); laws: all series "
+        "relabellings (n<=4; n=5: identity, thorough tier + 2 more; identical "
+        "labelled weighted graphs once) x all resistance assignments over "
+        "{1/2,1,2} (<=6 links; unit + one link perturbed beyond); laws: all series "
         "chains of 1..7 resistors, parallel bundles of 1..3 two-link branches "
         "(+/- direct link, up to 6 branches uniform), 2xk ladders k=2..4 unit "
         "+ one perturbed link; complex: 3^5 assignments x 2 labellings; "
@@ -568,12 +590,19 @@ def run(ctx):
             nl = bin(m).count("1")
             if n <= 4:
                 perms = list(itertools.permutations(range(n)))
+            elif thorough:
+                perms = [tuple(range(n)), (4, 3, 2, 1, 0), (2, 4, 1, 0, 3)]
             else:
                 perms = [tuple(range(n))]
-            asg = _assignments(nl, 5 if (n == 5 and not thorough) else 6)
+            asg = _assignments(nl, 6)
+            seen = set()
             for p in perms:
                 for a in asg:
-                    cases.append((n, m, list(p), a))
+                    # identical labelled weighted graphs (automorphisms) once
+                    key = tuple(sorted(_links_from(n, m, a, p).items()))
+                    if key not in seen:
+                        seen.add(key)
+                        cases.append((n, m, list(p), a))
     cases.sort(key=lambda c: (c[0], bin(c[1]).count("1")))
     ctx.explore("circuit", cases, desc="connected graphs x relabellings x "
                 "resistance assignments vs exact rational circuit model")
